@@ -172,7 +172,8 @@ def eval_expr(e: ast.AST, env: Dict[str, Rat], atom: Optional[Callable[[ast.AST]
               source: Optional[str] = None) -> Rat:
     """Normal form of an arithmetic expression.  `env` binds names; `atom` may map any other sub-expression to a
     value (return None to decline).  Float literals are read from their source text when `source` is given."""
-    if atom is not None and not isinstance(e, (ast.BinOp, ast.UnaryOp, ast.Constant)):
+    if atom is not None and (not isinstance(e, (ast.BinOp, ast.UnaryOp, ast.Constant)) or
+                             (isinstance(e, ast.BinOp) and isinstance(e.op, (ast.Mod, ast.FloorDiv)))):
         r = atom(e)
         if r is not None:
             return r
